@@ -429,6 +429,17 @@ class Ex:
             return z3.And(*[self.eq(x, y, goal) for x, y in zip(a.items, b.items)]) if a.items else z3.BoolVal(True)
         if isinstance(a, VTuple) and isinstance(b, VSeq) or isinstance(a, VSeq) and isinstance(b, VTuple):
             return z3.BoolVal(False)
+        if isinstance(a, VBox) and a.kind == "dict" or isinstance(b, VBox) and b.kind == "dict":
+            av = a.val if isinstance(a, VBox) else a
+            bv = b.val if isinstance(b, VBox) else b
+            if self.old_mode and isinstance(a, VBox):
+                av = self.box_val(a)
+            return self.world.speclib.box_equal(self, a, av, bv)
+        if self.spec_mode and isinstance(a, VObj) and isinstance(b, VObj) and a.cls == b.cls and a is not b:
+            from vf.pyvc.values import REC_CLASSES
+            if a.cls in REC_CLASSES and (getattr(a, "frozen", False) or getattr(b, "frozen", False)):
+                # objects kept by value: in specification text `==` compares the recorded fields
+                return unwrap(("rec", a.cls), a) == unwrap(("rec", b.cls), b)
         if isinstance(a, (VObj, VBox)) or isinstance(b, (VObj, VBox)):
             return z3.BoolVal(a is b)
         if isinstance(a, VPy) and isinstance(b, VPy):
@@ -797,6 +808,8 @@ class Ex:
                     return
             if self.taint is not None:
                 self.taint.on_store(self, obj, name, v)
+            if getattr(obj, "frozen", False):
+                raise Unsupported("mutation of an object that was read back from a by-value list / dict")
             obj.fields[name] = v
             return
         raise Unsupported("attribute store on %r" % (obj,))
@@ -811,6 +824,8 @@ class Ex:
     def loop_spec(self, st):
         fn, k = self.loop_key(st)
         c = self.world.contract_for_func(self.frame().func)
+        if self.contract is not None and len(self.frames) == 1:
+            c = self.contract            # the function under verification: its own contract variant
         if c is None:
             return None, fn, k
         return c.loops.get(k), fn, k
@@ -1508,6 +1523,8 @@ class Ex:
                 self.old_mode = prev
         if nm == "implies":
             a = self.truth(self.eval(e.args[0]))
+            if self.decided(a) is False:
+                return VBool(True)          # the consequent is not evaluated (it may not even be well typed)
             # evaluate the consequent under the antecedent without forking the path
             return VBool(z3.Implies(a, self.truth(self.eval_guarded(e.args[1], a))))
         if nm in ("forall", "exists"):
@@ -1698,6 +1715,15 @@ class Ex:
             return VSeq(a.kind, a.ety, z3.If(c, a.t, b.t))
         if isinstance(a, VTuple) and isinstance(b, VTuple) and len(a.items) == len(b.items):
             return VTuple([self.ite(c, x, y) for x, y in zip(a.items, b.items)])
+        if isinstance(a, VBox) and isinstance(b, VBox) and a.kind == b.kind == "dict":
+            from vf.pyvc.values import DictVal, empty_dict
+            av, bv = a.val, b.val
+            if av is None and bv is not None:
+                av = empty_dict(bv.kty, bv.vty)
+            if bv is None and av is not None:
+                bv = empty_dict(av.kty, av.vty)
+            if av is not None:
+                return VBox("dict", DictVal(av.kty, av.vty, z3.If(c, av.keys, bv.keys), z3.If(c, av.vals, bv.vals)), "ite")
         raise Unsupported("ite merge of %r and %r" % (a, b))
 
     def _memo_key(self, v):
